@@ -16,7 +16,7 @@ from sa.source import AnalysisError
 
 PROPERTY = "C16"
 B = "protocols/basic.py"
-TECHNIQUE = "finite-domain evaluation of branch decisions at the limits + CFG ordering"
+TECHNIQUE = "boundary evaluation along the CFG; interpreted multi-call segmentation runs; CFG ordering"
 EXPLANATION = (
     "Decides by evaluating the branch decisions of protocols/basic.py on boundary values (length = MAX_LENGTH-1, MAX_LENGTH, "
     "MAX_LENGTH+1; buffer = limit-1, limit) along the CFG: a complete line / int-prefixed string / netstring of exactly "
@@ -29,7 +29,12 @@ EXPLANATION = (
     "netstring payload split uses expected-current. Writer/reader agreement: sendString packs with the attribute "
     "dataReceived unpacks with, prefixLength = calcsize(structFormat) of an unsigned network-order format whose range is "
     "the sendString limit, _formatNetstring produces '<decimal>:<data>,' and the _LENGTH regexes accept exactly canonical "
-    "decimals. Not decided: equality of the whole delivered sequence under every segmentation (value-level)."
+    "decimals. Segmentation invariance (state carried across calls): each receiver class is interpreted from its source by a small "
+    "concrete evaluator (no import of twisted) on sample streams of 2-4 messages, delivered at once and in every 2-way (and, for "
+    "short streams or in the thorough tier, every 3-way) segmentation, with all instance attributes threaded from one dataReceived "
+    "call to the next (pause/resume, raw/line mode switches and setLineMode(extra) included); the event trace up to the first close "
+    "request must equal the whole-stream trace and an independent reference framing. Not decided: invariance for all streams "
+    "(only the sample streams are enumerated)."
 )
 ASSUMPTIONS = [
     "lineReceived/rawDataReceived/stringReceived may re-enter dataReceived, setLineMode/setRawMode, pause/resume only",
@@ -951,6 +956,16 @@ MUTANTS = [
            "        if self._currentPayloadSize <= self._expectedPayloadSize:\n            raise IncompleteNetstring()", expect_rule="netstring/complete-message-delivered"),
     Mutant("intn-parsing-continues-after-limit", B, "                self.lengthLimitExceeded(length)\n                return\n", "                self.lengthLimitExceeded(length)\n",
            expect_rule="intn/"),
+    Mutant("intn-waits-for-absolute-end-offset", B, "    _compatibilityOffset = 0\n\n    # Backwards compatibility support", "    _compatibilityOffset = 0\n    _needed = 0\n\n    # Backwards compatibility support",
+           more=[(B, "        self._unprocessed = alldata\n\n        while len(alldata) >= (currentOffset + prefixLength) and not self.paused:",
+                  "        self._unprocessed = alldata\n        if self._needed > len(alldata):\n            return\n        self._needed = 0\n\n        while len(alldata) >= (currentOffset + prefixLength) and not self.paused:"),
+                 (B, "            if len(alldata) < messageEnd:\n                break\n", "            if len(alldata) < messageEnd:\n                self._needed = messageEnd\n                break\n")],
+           expect_rule="intn/segmentation-invariant"),
+    Mutant("netstring-size-counter-restarts-per-segment", B, "            self._currentPayloadSize += len(self._remainingData)\n", "            self._currentPayloadSize = len(self._remainingData)\n",
+           expect_rule="netstring/segmentation-invariant"),
+    Mutant("line-only-buffer-forgets-partial-delimiter", B, "        self._buffer = lines.pop(-1)\n", "        self._buffer = lines.pop(-1).rstrip(b\"\\r\")\n", expect_rule="line-only/segmentation-invariant"),
+    Mutant("line-raw-extra-data-lost-after-mode-switch", B, "        self.line_mode = 1\n        if extra:\n            return self.dataReceived(extra)\n",
+           "        self.line_mode = 1\n        if extra and not self._busyReceiving:\n            return self.dataReceived(extra)\n", expect_rule="line/segmentation-invariant"),
     Mutant("line-only-new-before-old", B, "        lines = (self._buffer + data).split(self.delimiter)", "        lines = (data + self._buffer).split(self.delimiter)",
            expect_rule="line-only/buffer-order"),
 ]
@@ -965,5 +980,9 @@ SILENT = [
     Silent("intn-send-limit-respelled", B, "        if len(string) >= 2 ** (8 * self.prefixLength):", "        if not len(string) < 256 ** self.prefixLength:"),
     Silent("netstring-payload-complete-mirrored", B, "            len(self._remainingData) + self._currentPayloadSize\n            >= self._expectedPayloadSize",
            "            self._expectedPayloadSize\n            <= self._currentPayloadSize + len(self._remainingData)"),
+    Silent("intn-correct-wait-optimisation-with-new-attribute", B, "    _compatibilityOffset = 0\n\n    # Backwards compatibility support", "    _compatibilityOffset = 0\n    _needed = 0\n\n    # Backwards compatibility support",
+           more=[(B, "        self._unprocessed = alldata\n\n        while len(alldata) >= (currentOffset + prefixLength) and not self.paused:",
+                  "        self._unprocessed = alldata\n        if self._needed > len(alldata):\n            return\n        self._needed = 0\n\n        while len(alldata) >= (currentOffset + prefixLength) and not self.paused:"),
+                 (B, "            if len(alldata) < messageEnd:\n                break\n", "            if len(alldata) < messageEnd:\n                self._needed = messageEnd - currentOffset\n                break\n")]),
     Silent("netstring-buffer-append-spelled-out", B, "        self._remainingData += data\n        while self._remainingData:", "        self._remainingData = self._remainingData + data\n        while self._remainingData:"),
 ]
